@@ -282,6 +282,34 @@ def collide_names(doc, rng):
     return d, "body parameter named %r beside the response %r (both with schemas)" % (name, code)
 
 
+BLANK_FIRST = [("host",), ("basePath",), ("swagger",), ("info", "version"), ("info", "title")]
+
+
+def single_blank_string(doc, rng):
+    """a valid document in which exactly one string leaf is replaced by the empty string (or a blank): keywords such as
+    pattern, enum, format and minLength of the Swagger 2.0 schema apply to the empty string too. The fields the schema
+    constrains by a pattern come first, in turn; then any string leaf"""
+    d = copy.deepcopy(doc)
+    d.setdefault("host", "api.example.com")
+    d.setdefault("basePath", "/v1")
+    k = next_variant("blank_string", len(BLANK_FIRST) + 3)
+    if k < len(BLANK_FIRST):
+        p = BLANK_FIRST[k]
+    else:
+        leaves = [q for q in all_paths(d) if q and isinstance(get_at(d, q), str)]
+        if not leaves:
+            return d, "none"
+        p = rng.choice(leaves)
+    try:
+        if not isinstance(get_at(d, p), str):
+            return d, "none"
+        new = "" if rng.random() < 0.7 else " "
+        set_at(d, p, new)
+    except Exception:
+        return copy.deepcopy(doc), "none"
+    return d, "string at /%s replaced by %r" % ("/".join(str(x) for x in p), new)
+
+
 def rename_names(doc, rng):
     """rename a parameter / definition / property to a name from the collision-prone pool (dots, empty, ...)"""
     d = copy.deepcopy(doc)
